@@ -302,7 +302,7 @@ def eval_cases(tag, imports, rtype, eqb, pairs, shard=300, extra_defs=""):
     for si in range(0, len(pairs), shard):
         chunk = pairs[si:si + shard]
         name = f"Cases_{tag}_{si // shard}"
-        lines = [f"From IoosQc Require Import {' '.join(imports)}.", "Open Scope Q_scope.", extra_defs]
+        lines = [f"From IoosQc Require Import {' '.join(imports)}.", "From Coq Require Import String.", "Open Scope Q_scope.", extra_defs]
         lines.append(f"Definition cases : list ({rtype} * {rtype}) := [")
         lines.append(";\n".join(f" ({g}, {e})" for g, e in chunk))
         lines.append("].")
